@@ -159,16 +159,20 @@ func Run(r *core.Run) {
 	}})
 	baseState := resolution.State{UpdateCommitment: "uc", RecoveryCommitment: "rc", VersionID: "v1", CreatedTime: 1600000000, UpdatedTime: 1600000100}
 	info := protocol.TransformationInfo{"id": did, "published": true, "canonicalId": "did:sidetree:cid", "equivalentId": []string{"did:sidetree:e1", "did:sidetree:e2"}}
-	core.Parallel(len(docs), func(di int) {
+	// the DID itself is data: a pct-encoded method-specific id (domain hint with a port) and one that looks like formatting verbs
+	theDIDs := []string{did, "did:sidetree:https:localhost%3A8080:EiPct", "did:sidetree:EiA%sB%dC%%D%v"}
+	core.Parallel(len(docs)*len(theDIDs), func(job int) {
+		di, did := job/len(theDIDs), theDIDs[job%len(theDIDs)]
+		info := protocol.TransformationInfo{"id": did, "published": true, "canonicalId": info["canonicalId"], "equivalentId": info["equivalentId"]}
 		d := docs[di]
 		for _, oc := range optCases {
 			oc := oc
-			id := fmt.Sprintf("document/%d/%s", di, oc.name)
+			id := fmt.Sprintf("document/%d/%s/did%d", di, oc.name, job%len(theDIDs))
 			r.Case(id, func() *core.Fail {
 				rm := &protocol.ResolutionModel{Doc: toDoc(d), UpdateCommitment: "uc", RecoveryCommitment: "rc", VersionID: "v1", CreatedTime: 1600000000, UpdatedTime: 1600000100}
 				res, err := didtransformer.New(oc.mk()...).TransformDocument(rm, info)
 				want, ok := resolution.Document(gen(d).(M), did, oc.o)
-				det := M{"internal_document": d, "options": oc.name}
+				det := M{"internal_document": d, "options": oc.name, "did": did}
 				if !ok {
 					if err == nil {
 						return &core.Fail{Key: id, What: "key type without a context in the configured map transformed without error", Detail: det}
